@@ -77,7 +77,7 @@ each other; the harness op `conc` checks exactly this on the real code. -/
 theorem C21_gen_distance_path_pure :
     SerfModel.Gen.CoordPurity.distancePath =
       [ { name := "DistanceTo", packageVars := [], writesIntoArguments := [],
-          calls := ["c.IsCompatibleWith", "c.rawDistanceTo", "panic", "time.Duration"] },
+          calls := ["panic", "time.Duration", "v0.IsCompatibleWith", "v0.rawDistanceTo"] },
         { name := "IsCompatibleWith", packageVars := [], writesIntoArguments := [], calls := ["len"] },
         { name := "rawDistanceTo", packageVars := [], writesIntoArguments := [], calls := ["diff", "magnitude"] },
         { name := "diff", packageVars := [], writesIntoArguments := [], calls := ["len", "make"] },
